@@ -7,7 +7,7 @@ import "strings"
 const XmlNsUri = "http://www.w3.org/XML/1998/namespace"
 
 type DocCfg struct {
-	MaxNodes     int  // budget for element/text/comment/pi nodes
+	MaxNodes     int // budget for element/text/comment/pi nodes
 	MaxDepth     int
 	MaxKids      int
 	Namespaces   bool // namespace declarations and names in namespaces
@@ -18,9 +18,10 @@ type DocCfg struct {
 	TextPool     []string
 }
 
-var DefaultNames = []string{"a", "b", "c", "d", "item", "x-1", "n.m", "child", "text", "self", "comment", "node", "attribute", "a", "div", "or", "mod", "and"}
+var DefaultNames = []string{"a", "b", "c", "d", "item", "x-1", "n.m", "child", "text", "self", "comment", "node", "attribute", "a", "div", "or", "mod", "and", "NaN", "inf", "Infinity", "nan"}
 var DefaultTexts = []string{"1", "2", "10", "9", "-3", "1.5", "2.25", " 7 ", "0", "abc", "", "1e3", "NaN", "Infinity", "0x10", "+1", "é", "𝄞x", "3", "b", " ", "a b", "-0", ".5", "5.", "007", "12345678901234567890", "\u00a012", "3\u2003", "\u00854", "1\u00a0"}
 var NumericTexts = []string{"1", "2", "10", "9", "-3", "1.5", "2.25", "0", "3", "4", "-0.5", "100", "0.125", "7", "\u00a012", " 8 ", "\t6\n"}
+
 // numbers too large for a double: number() is +-Infinity (IEEE round to nearest), not NaN
 var HugeNumberTexts = []string{"1" + strings.Repeat("0", 309), "-" + strings.Repeat("9", 320) + ".5", " 17976931348623158" + strings.Repeat("0", 292) + " ", "17976931348623157" + strings.Repeat("0", 292)}
 
